@@ -1,7 +1,711 @@
 package main
 
+// Glue streams of C13 through api.Transform with node as the independent parser.
+
 import (
+	"bytes"
+	"encoding/json"
+	"fmt"
+	"go/ast"
+	"go/parser"
+	"go/token"
+	"os"
+	"os/exec"
+	"path/filepath"
+	"regexp"
+	"runtime"
+	"strconv"
+	"strings"
+	"sync"
+
+	"github.com/evanw/esbuild/pkg/api"
 	. "github.com/evanw/esbuild/verifharness/hlib"
 )
 
-func glue(r *Rng, st *Stats, n int, tier string, printed []printedTree) {}
+// ---------------------------------------------------------------------------
+// node: syntax check only (compile, never run), script and module goals
+
+const nodeSyntaxRunner = `
+const vm = require("vm"), fs = require("fs");
+const input = JSON.parse(fs.readFileSync(process.argv[2], "utf8"));
+const out = [];
+for (const it of input) {
+  let ok = true, err = "";
+  try {
+    if (it.goal === "module") new vm.SourceTextModule(it.code);
+    else new vm.Script(it.code);
+  } catch (e) {
+    ok = false; err = String(e && e.message);
+    if (!(e instanceof SyntaxError)) err = "NON-SYNTAX:" + err;
+  }
+  out.push({ ok, err });
+}
+fs.writeFileSync(process.argv[3], JSON.stringify(out));
+`
+
+type nodeItem struct {
+	Code string `json:"code"`
+	Goal string `json:"goal"`
+}
+type nodeVerdict struct {
+	Ok  bool   `json:"ok"`
+	Err string `json:"err"`
+}
+
+func nodeSyntax(items []nodeItem) ([]nodeVerdict, error) {
+	dir, err := os.MkdirTemp("", "verif-c13-")
+	if err != nil {
+		return nil, err
+	}
+	defer os.RemoveAll(dir)
+	data, _ := json.Marshal(items)
+	inp, outp, run := filepath.Join(dir, "in.json"), filepath.Join(dir, "out.json"), filepath.Join(dir, "run.js")
+	if err := os.WriteFile(inp, data, 0o644); err != nil {
+		return nil, err
+	}
+	if err := os.WriteFile(run, []byte(nodeSyntaxRunner), 0o644); err != nil {
+		return nil, err
+	}
+	cmd := exec.Command("node", "--experimental-vm-modules", "--no-warnings", "--stack-size=4000", run, inp, outp)
+	var stderr bytes.Buffer
+	cmd.Stderr = &stderr
+	if err := cmd.Run(); err != nil {
+		return nil, fmt.Errorf("node failed: %v: %s", err, stderr.String())
+	}
+	raw, err := os.ReadFile(outp)
+	if err != nil {
+		return nil, err
+	}
+	var res []nodeVerdict
+	if err := json.Unmarshal(raw, &res); err != nil {
+		return nil, err
+	}
+	if len(res) != len(items) {
+		return nil, fmt.Errorf("node returned %d verdicts for %d items", len(res), len(items))
+	}
+	return res, nil
+}
+
+// ---------------------------------------------------------------------------
+// the repository's own parser/printer test inputs
+
+type corpusItem struct {
+	src      string
+	jsx      bool
+	fromErr  bool // argument of an expectParseError* call
+	testFile string
+}
+
+func stringArg(e ast.Expr) (string, bool) {
+	switch x := e.(type) {
+	case *ast.BasicLit:
+		if x.Kind == token.STRING {
+			s, err := strconv.Unquote(x.Value)
+			return s, err == nil
+		}
+	case *ast.BinaryExpr:
+		if x.Op == token.ADD {
+			a, ok1 := stringArg(x.X)
+			b, ok2 := stringArg(x.Y)
+			return a + b, ok1 && ok2
+		}
+	case *ast.ParenExpr:
+		return stringArg(x.X)
+	}
+	return "", false
+}
+
+func extractCorpus(repo string) ([]corpusItem, error) {
+	var out []corpusItem
+	seen := map[string]bool{}
+	for _, rel := range []string{"internal/js_parser/js_parser_test.go", "internal/js_printer/js_printer_test.go"} {
+		fset := token.NewFileSet()
+		f, err := parser.ParseFile(fset, filepath.Join(repo, rel), nil, 0)
+		if err != nil {
+			return nil, err
+		}
+		ast.Inspect(f, func(n ast.Node) bool {
+			call, ok := n.(*ast.CallExpr)
+			if !ok {
+				return true
+			}
+			id, ok := call.Fun.(*ast.Ident)
+			if !ok || !strings.HasPrefix(id.Name, "expect") {
+				return true
+			}
+			for _, a := range call.Args {
+				if s, ok := stringArg(a); ok {
+					jsx := strings.Contains(id.Name, "JSX")
+					key := fmt.Sprint(jsx) + s
+					if !seen[key] && len(s) > 0 && len(s) < 4000 {
+						seen[key] = true
+						out = append(out, corpusItem{src: s, jsx: jsx, fromErr: strings.Contains(id.Name, "ParseError"), testFile: filepath.Base(rel)})
+					}
+					break // the first string argument is the input
+				}
+			}
+			return true
+		})
+	}
+	if len(out) < 1000 {
+		return nil, fmt.Errorf("only %d test inputs extracted (test helpers renamed?)", len(out))
+	}
+	return out, nil
+}
+
+// ---------------------------------------------------------------------------
+
+type variant struct {
+	mw      bool
+	utf8    bool
+	format  api.Format
+	jsx     bool
+	comment string
+}
+
+func (v variant) String() string {
+	f := map[api.Format]string{api.FormatDefault: "default", api.FormatESModule: "esm", api.FormatCommonJS: "cjs", api.FormatIIFE: "iife"}[v.format]
+	return fmt.Sprintf("format=%s minify-whitespace=%v charset=%s jsx-preserve=%v", f, v.mw, map[bool]string{true: "utf8", false: "ascii"}[v.utf8], v.jsx)
+}
+
+func (v variant) opts(second bool) api.TransformOptions {
+	o := api.TransformOptions{Loader: api.LoaderJS, LogLevel: api.LogLevelSilent, MinifyWhitespace: v.mw, LegalComments: api.LegalCommentsNone}
+	if v.utf8 {
+		o.Charset = api.CharsetUTF8
+	}
+	if v.jsx {
+		o.Loader = api.LoaderJSX
+		o.JSX = api.JSXPreserve
+	}
+	if !second {
+		o.Format = v.format
+	}
+	return o
+}
+
+type glueCase struct {
+	kind    string
+	src     string
+	v       variant
+	out1    string
+	err1    string
+	mark1   string // source text underlined by esbuild's first error
+	other   string // trees: the same tree printed in the other white-space mode
+	out2    string
+	err2    string
+	srcS    int // index of node verdict for src as script (-1 = not asked)
+	srcM    int
+	outS    int
+	outM    int
+	fromErr bool
+}
+
+func transform(src string, o api.TransformOptions) (string, string) {
+	out, e, _ := transformLoc(src, o)
+	return out, e
+}
+
+// also returns the source text esbuild underlined for its first error
+func transformLoc(src string, o api.TransformOptions) (string, string, string) {
+	res := api.Transform(src, o)
+	if len(res.Errors) > 0 {
+		m := res.Errors[0]
+		marked := ""
+		if l := m.Location; l != nil {
+			// absolute byte offset of the location, then the expression that starts there
+			off := 0
+			for line := 1; line < l.Line && off < len(src); off++ {
+				if src[off] == '\n' {
+					line++
+				}
+			}
+			off += l.Column
+			if off <= len(src) {
+				marked = exprPrefixAt(src[off:])
+			}
+		}
+		return "", m.Text, marked
+	}
+	return string(res.Code), "", ""
+}
+
+// runs f(i) for i in [0,n) on all cores; results are stored by index, so the
+// outcome does not depend on scheduling
+func parallel(n int, f func(i int)) {
+	var wg sync.WaitGroup
+	workers := runtime.NumCPU()
+	if workers > 16 {
+		workers = 16
+	}
+	ch := make(chan int, 256)
+	for w := 0; w < workers; w++ {
+		wg.Add(1)
+		go func() {
+			defer wg.Done()
+			for i := range ch {
+				f(i)
+			}
+		}()
+	}
+	for i := 0; i < n; i++ {
+		ch <- i
+	}
+	close(ch)
+	wg.Wait()
+}
+
+// deliberate esbuild restrictions and differences that are not violations of
+// the property (each was looked at by hand on the pinned tree; see the report)
+func acceptanceExcluded(c *glueCase, goal string) string {
+	e := c.err1
+	switch {
+	case strings.Contains(e, "Top-level await is currently not supported"):
+		return "top-level await with cjs/iife output (documented esbuild restriction)"
+	case strings.Contains(e, "With statements cannot be used") || strings.Contains(e, "with an ECMAScript module"):
+		return "sloppy-only construct in ESM output"
+	}
+	return ""
+}
+
+func glue(r *Rng, st *Stats, n int, tier string, printed []printedTree) {
+	repo := os.Getenv("VERIF_REPO")
+	if repo == "" {
+		repo = "/repo"
+	}
+	corpus, err := extractCorpus(repo)
+	if err != nil {
+		st.Fail("corpus-extraction", err.Error(), nil, nil)
+		return
+	}
+	st.Histogram["corpus-literals"] = len(corpus)
+	replayKnown(st)
+
+	formats := []api.Format{api.FormatDefault, api.FormatESModule, api.FormatCommonJS, api.FormatIIFE}
+	randVariant := func(jsx bool) variant {
+		return variant{mw: r.Bool(), utf8: r.Chance(30), format: formats[r.Intn(4)], jsx: jsx}
+	}
+	var cases []*glueCase
+	add := func(kind, src string, v variant, fromErr bool) {
+		cases = append(cases, &glueCase{kind: kind, src: src, v: v, srcS: -1, srcM: -1, outS: -1, outM: -1, fromErr: fromErr})
+	}
+
+	// (1) printed trees of the modelled fragment
+	for i, p := range printed {
+		if tier == "quick" && !p.grid && i%4 != 0 {
+			continue
+		}
+		add("tree", p.text, variant{mw: p.mw}, false)
+		cases[len(cases)-1].other = p.other
+	}
+	// (2) jsgen programs
+	nj := n / 3
+	for i := 0; i < nj; i++ {
+		g := NewJSGen(r, AllJSFeatures())
+		src := g.Program(r.Range(2, 5))
+		add("jsgen", src, variant{mw: r.Bool(), utf8: r.Chance(30), format: []api.Format{api.FormatDefault, api.FormatCommonJS, api.FormatIIFE}[r.Intn(3)]}, false)
+	}
+	// (3) the repository's own test inputs: default options, minify-whitespace, and one random variant
+	stride := 1
+	if tier == "quick" {
+		stride = 4
+	}
+	off := r.Intn(stride)
+	for i, c := range corpus {
+		if (i+off)%stride != 0 {
+			continue
+		}
+		if tier != "quick" || i%2 == 0 {
+			add("corpus", c.src, variant{jsx: c.jsx}, c.fromErr)
+		}
+		if tier != "quick" || i%2 == 1 {
+			add("corpus", c.src, variant{mw: true, jsx: c.jsx}, c.fromErr)
+		}
+		add("corpus", c.src, randVariant(c.jsx), c.fromErr)
+	}
+	// (4) grammar-based generation biased to rare productions
+	ng := n * 4
+	for i := 0; i < ng; i++ {
+		src := genRare(r)
+		add("rare", src, variant{}, false)
+		if r.Chance(40) {
+			add("rare", src, randVariant(false), false)
+		}
+	}
+	// (4b) every reserved, strict-reserved and contextual word in binding, label, shorthand,
+	// property and strict-mode positions (exhaustive: ties the keyword tables to behaviour)
+	for _, w := range allWords {
+		for _, t := range []string{"var %s = 1", "%s: 1", "function %s(){}", "x = {%s}", "'use strict'; var %s", "x.%s", "'use strict'; %s: 1", "let %s", "x = {%s: 1, %s(){}}"} {
+			add("word", strings.ReplaceAll(t, "%s", w), variant{}, false)
+		}
+	}
+	// (4c) a fixed list of ASI and regexp-vs-division boundaries (node decides which are valid)
+	for _, src := range boundaryCorpus {
+		add("boundary", src, variant{}, false)
+		add("boundary", src, variant{mw: true}, false)
+		add("boundary", "function f(){" + src + "}", variant{mw: r.Bool()}, false)
+		add("boundary", "function* f(){" + src + "}", variant{mw: r.Bool()}, false)
+	}
+	// (4d) must-pass inputs of repaired findings
+	for _, src := range mustPassCorpus {
+		add("mustpass", src, variant{mw: true}, false)
+		add("mustpass", src, variant{}, false)
+		add("mustpass", src, variant{mw: true, format: api.FormatESModule}, false)
+	}
+	// (5) mutations of test inputs and of generated programs
+	nm := n * 3
+	for i := 0; i < nm; i++ {
+		var base string
+		if r.Chance(70) {
+			c := corpus[r.Intn(len(corpus))]
+			if c.jsx {
+				continue
+			}
+			base = c.src
+		} else {
+			base = genRare(r)
+		}
+		add("mutant", mutateJS(r, base), variant{mw: r.Bool()}, true)
+	}
+
+	// first transform
+	parallel(len(cases), func(i int) {
+		c := cases[i]
+		c.out1, c.err1, c.mark1 = transformLoc(c.src, c.v.opts(false))
+		if c.err1 == "" {
+			c.out2, c.err2 = transform(c.out1, c.v.opts(true))
+		}
+	})
+
+	// node verdicts (one batch): every source in both goals, every output in the relevant goals
+	var items []nodeItem
+	ask := func(code, goal string) int {
+		items = append(items, nodeItem{code, goal})
+		return len(items) - 1
+	}
+	srcIdx := map[string][2]int{}
+	for _, c := range cases {
+		if c.v.jsx {
+			continue
+		}
+		if p, ok := srcIdx[c.src]; ok {
+			c.srcS, c.srcM = p[0], p[1]
+		} else {
+			c.srcS, c.srcM = ask(c.src, "script"), ask(c.src, "module")
+			srcIdx[c.src] = [2]int{c.srcS, c.srcM}
+		}
+		if c.err1 == "" {
+			switch c.v.format {
+			case api.FormatDefault:
+				c.outS, c.outM = ask(c.out1, "script"), ask(c.out1, "module")
+			case api.FormatESModule:
+				c.outM = ask(c.out1, "module")
+			default:
+				c.outS = ask(c.out1, "script")
+			}
+		}
+	}
+	verdicts, err := nodeSyntax(items)
+	if err != nil {
+		st.Fail("node-oracle-unavailable", err.Error(), nil, nil)
+		return
+	}
+	ok := func(i int) bool { return i >= 0 && verdicts[i].Ok }
+	msg := func(i int) string {
+		if i < 0 {
+			return ""
+		}
+		return verdicts[i].Err
+	}
+
+	type pendingWrap struct {
+		c    *glueCase
+		goal string
+	}
+	var pend []pendingWrap
+
+	for _, c := range cases {
+		desc := map[string]string{"input": c.src, "options": c.v.String(), "kind": c.kind}
+		validS, validM := ok(c.srcS), ok(c.srcM)
+		st.Note("glue-"+c.kind, c.v.String()+c.src, c.err1 == "")
+
+		// --- acceptance: a program node accepts must be accepted
+		if c.err1 != "" && c.kind == "tree" {
+			// the text was printed by esbuild's own printer from a valid tree: it must be readable
+			failC(st, "output-not-reparsable", map[string]string{"input": c.src, "options": c.v.String(), "kind": c.kind, "out1": c.src}, c.err1, "esbuild accepts what its printer printed for a valid expression tree")
+			continue
+		}
+		if c.err1 != "" {
+			st.Histogram["esbuild-rejected-"+c.kind]++
+			if !c.v.jsx {
+				var goal string
+				switch c.v.format {
+				case api.FormatESModule:
+					if validM {
+						goal = "module"
+					}
+				default:
+					if validS {
+						goal = "script"
+					} else if validM {
+						goal = "module"
+					}
+				}
+				if goal != "" {
+					if why := knownRejection(c, goal); why != "" {
+						st.Histogram["excluded: "+why]++
+					} else if goal == "script" && (awaitish.MatchString(c.src) || strings.Contains(c.err1, "await")) {
+						pend = append(pend, pendingWrap{c, goal})
+					} else {
+						desc["node_goal"] = goal
+						failC(st, "valid-program-rejected", desc, c.err1, "accepted (node accepts it as "+goal+")")
+					}
+				}
+			}
+			continue
+		}
+
+		// --- a printed tree must read back as the tree that was printed: the second pass,
+		// printed with the other white-space mode, equals the direct print of the tree in that mode
+		if c.kind == "tree" && c.other != "" {
+			v2 := c.v
+			v2.mw = !c.v.mw
+			back, e := transform(c.out1, v2.opts(true))
+			back = strings.TrimSuffix(strings.TrimSuffix(back, "\n"), ";")
+			if e != "" || back != c.other {
+				failC(st, "printed-tree-reads-back-differently", map[string]string{"input": c.src, "options": c.v.String(), "kind": c.kind, "out1": c.out1}, back+e, c.other)
+			}
+		}
+
+		// --- fixed point (comments ignored, as the property says)
+		if c.v.format != api.FormatIIFE && (c.err2 != "" || c.out2 != c.out1) {
+			d := map[string]string{"input": c.src, "options": c.v.String(), "kind": c.kind, "out1": c.out1}
+			if why := knownNotFixed(c); why != "" {
+				st.Histogram["excluded: "+why]++
+			} else if c.err2 != "" {
+				failC(st, "output-not-reparsable", d, c.err2, "second Transform accepts the first output")
+			} else if stripComments(c.out1) != stripComments(c.out2) {
+				failC(st, "not-a-fixed-point", d, c.out2, c.out1)
+			} else {
+				st.Histogram["fixed-point-up-to-comments"]++
+			}
+		}
+
+		// --- validity of the output in the goal(s) of the input
+		if c.v.jsx {
+			continue
+		}
+		var failGoal, failMsg string
+		switch c.v.format {
+		case api.FormatDefault:
+			// no kind was requested: esbuild decides (e.g. a top-level "await x" makes the
+			// file a module); the output must be valid in a goal in which the input is
+			if (validS || validM) && !((validS && ok(c.outS)) || (validM && ok(c.outM))) {
+				if validS {
+					failGoal, failMsg = "script", msg(c.outS)
+				} else {
+					failGoal, failMsg = "module", msg(c.outM)
+				}
+			}
+		case api.FormatESModule:
+			if validM && !ok(c.outM) {
+				failGoal, failMsg = "module", msg(c.outM)
+			}
+		default:
+			if (validS || validM) && !ok(c.outS) {
+				failGoal, failMsg = "script", msg(c.outS)
+			}
+		}
+		if failGoal != "" {
+			if why := knownInvalidOutput(c, failGoal, failMsg); why != "" {
+				st.Histogram["excluded: "+why]++
+			} else {
+				d := map[string]string{"input": c.src, "options": c.v.String(), "kind": c.kind, "out1": c.out1, "goal": failGoal}
+				failC(st, "invalid-output", d, failMsg, "node accepts the output as "+failGoal+" (it accepts the input)")
+			}
+		}
+		if !validS && !validM && !ok(c.outS) && !ok(c.outM) {
+			// esbuild accepted something node rejects in both goals: the output must still be valid
+			if why := knownLenient(c, msg(c.srcS), msg(c.srcM), msg(firstAsked(c))); why != "" {
+				st.Histogram["excluded: "+why]++
+			} else {
+				d := map[string]string{"input": c.src, "options": c.v.String(), "kind": c.kind, "out1": c.out1, "node_on_input": msg(c.srcS)}
+				failC(st, "invalid-input-accepted-and-passed-through", d, "output rejected by node: "+msg(firstAsked(c)), "an error, or valid output")
+			}
+		}
+		if len(st.Samples) < 8 && c.kind != "tree" && r.Chance(2) {
+			st.Sample(map[string]interface{}{"kind": c.kind, "input": clip(c.src, 200), "options": c.v.String(), "out1": clip(c.out1, 200)})
+		}
+	}
+
+	// programs that use "await" as an identifier at the top level of a file whose kind is
+	// unknown: esbuild deliberately reads it as the module keyword.  Re-test the same text
+	// inside a sloppy function body, where both sides must read it as an identifier.
+	if len(pend) > 0 {
+		var witems []nodeItem
+		wrapped := make([]string, len(pend))
+		for i, p := range pend {
+			wrapped[i] = "function __w(){\n" + p.c.src + "\n}"
+			witems = append(witems, nodeItem{wrapped[i], "script"})
+		}
+		wv, err := nodeSyntax(witems)
+		if err != nil {
+			st.Fail("node-oracle-unavailable", err.Error(), nil, nil)
+			return
+		}
+		for i, p := range pend {
+			if !wv[i].Ok {
+				st.Histogram["excluded: top-level await ambiguity (not re-testable inside a function)"]++
+				continue
+			}
+			o := p.c.v.opts(false)
+			o.Format = api.FormatDefault
+			_, e := transform(wrapped[i], o)
+			if e == "" {
+				st.Histogram["excluded: top-level await ambiguity (accepted inside a function body)"]++
+				continue
+			}
+			if why := knownRejection(&glueCase{src: wrapped[i], err1: e}, "script"); why != "" {
+				st.Histogram["excluded: "+why]++
+				continue
+			}
+			failC(st, "valid-program-rejected", map[string]string{"input": wrapped[i], "options": p.c.v.String(), "kind": p.c.kind, "node_goal": "script"}, e, "accepted (node accepts it as script)")
+		}
+	}
+}
+
+var awaitish = regexp.MustCompile(`aw(a|\\u0061|\\u\{0*61\})it`)
+
+// removes comments and the white space around them (comments are ignored by the
+// property); strings, templates and regular expressions are skipped lexically
+func stripComments(s string) string {
+	var sb strings.Builder
+	i := 0
+	lastSig := byte(0)
+	for i < len(s) {
+		c := s[i]
+		switch {
+		case c == '/' && i+1 < len(s) && s[i+1] == '/':
+			for i < len(s) && s[i] != '\n' {
+				i++
+			}
+		case c == '/' && i+1 < len(s) && s[i+1] == '*':
+			j := strings.Index(s[i+2:], "*/")
+			if j < 0 {
+				i = len(s)
+			} else {
+				i += j + 4
+			}
+		case c == '"' || c == '\'' || c == '`':
+			j := i + 1
+			for j < len(s) && s[j] != c {
+				if s[j] == '\\' {
+					j++
+				}
+				j++
+			}
+			if j >= len(s) {
+				j = len(s) - 1
+			}
+			sb.WriteString(s[i : j+1])
+			lastSig = c
+			i = j + 1
+		case c == '/' && !(lastSig == ')' || lastSig == ']' || lastSig == '}' || lastSig == '"' || lastSig == '\'' || lastSig == '`' || lastSig == '_' || lastSig == '$' || (lastSig >= '0' && lastSig <= '9') || (lastSig >= 'a' && lastSig <= 'z') || (lastSig >= 'A' && lastSig <= 'Z') || lastSig >= 0x80):
+			// regular expression literal
+			j := i + 1
+			inClass := false
+			for j < len(s) && s[j] != '\n' && (inClass || s[j] != '/') {
+				if s[j] == '\\' {
+					j++
+				} else if s[j] == '[' {
+					inClass = true
+				} else if s[j] == ']' {
+					inClass = false
+				}
+				j++
+			}
+			if j >= len(s) {
+				j = len(s) - 1
+			}
+			sb.WriteString(s[i : j+1])
+			lastSig = '/'
+			i = j + 1
+		default:
+			if c != ' ' && c != '\n' && c != '\t' && c != '\r' {
+				lastSig = c
+				sb.WriteByte(c)
+			}
+			i++
+		}
+	}
+	return sb.String()
+}
+
+func firstAsked(c *glueCase) int {
+	if c.outS >= 0 {
+		return c.outS
+	}
+	return c.outM
+}
+
+func clip(s string, n int) string {
+	if len(s) > n {
+		return s[:n] + "..."
+	}
+	return s
+}
+
+// failC records a failure; with C13_DUMP=<file> every failure is also appended
+// to that file as one JSON object per line (calibration aid, unlimited count)
+func failC(st *Stats, what string, input, got, expect interface{}) {
+	st.Fail(what, input, got, expect)
+	if p := os.Getenv("C13_DUMP"); p != "" {
+		f, err := os.OpenFile(p, os.O_APPEND|os.O_CREATE|os.O_WRONLY, 0o644)
+		if err == nil {
+			b, _ := json.Marshal(map[string]interface{}{"what": what, "input": input, "got": got, "expect": expect})
+			f.Write(append(b, '\n'))
+			f.Close()
+		}
+	}
+}
+
+// the text of s up to the first assignment/update operator, ";" or "," at
+// bracket depth 0 (strings skipped): for "Invalid assignment target" errors,
+// whose location is the start of the target, this is the target expression
+func exprPrefixAt(s string) string {
+	depth := 0
+	for i := 0; i < len(s); i++ {
+		c := s[i]
+		switch {
+		case c == '"' || c == '\'' || c == '`':
+			j := i + 1
+			for j < len(s) && s[j] != c {
+				if s[j] == '\\' {
+					j++
+				}
+				j++
+			}
+			i = j
+		case c == '(' || c == '[' || c == '{':
+			depth++
+		case c == ')' || c == ']' || c == '}':
+			depth--
+			if depth < 0 {
+				return s[:i]
+			}
+		case depth == 0 && (c == ';' || c == ','):
+			return s[:i]
+		case depth == 0 && c == '=' && i > 0 && !(i+1 < len(s) && (s[i+1] == '=' || s[i+1] == '>')) && !(s[i-1] == '=' || s[i-1] == '!' || s[i-1] == '<' && i > 1 && s[i-2] != '<' || s[i-1] == '>' && i > 1 && s[i-2] != '>'):
+			// strip the operator characters of a compound assignment
+			j := i
+			for j > 0 && strings.ContainsRune("+-*/%&|^<>?", rune(s[j-1])) {
+				j--
+			}
+			return s[:j]
+		case depth == 0 && i+1 < len(s) && (c == '+' && s[i+1] == '+' || c == '-' && s[i+1] == '-') && i > 0:
+			return s[:i]
+		case depth == 0 && (strings.HasPrefix(s[i:], " in ") || strings.HasPrefix(s[i:], " of ") || strings.HasPrefix(s[i:], "\nin ") || strings.HasPrefix(s[i:], "\nof ")):
+			return s[:i]
+		}
+	}
+	return s
+}
